@@ -95,26 +95,64 @@ def correspond(res, tier):
 
 
 def search(res, tier, boost=False):
-    """Oracle on the real mesh after every operation of fresh random histories (no model involved)."""
+    """Oracle on the real mesh after every operation of fresh random histories (no model involved): tiling, levels,
+    bookkeeping, and minimality -- a single bisection must produce exactly the declarative least 1-irregular closure
+    (harness/refmesh.py), a marking step exactly the double closure of its marked sets."""
+    from .. import refmesh
+    from ..meshgen import op_json, random_indicators, THETAS
+    from .C06 import check_marking
     rng = seed_rng(res.seed, 'C02s')
-    n = (4 if tier == 'quick' else 40) * (4 if boost else 1)
+    from ..meshgen import deep_histories
+    for glue, X, T, run in deep_histories(rng, 8 if tier == 'quick' else 50, 22 if tier == 'quick' else 30):
+        pm = PyMesh.create(glue, X, T)
+        ops, status = run(pm)
+        hist = dict(glue=glue, X=X, T=T, ops=[list(o) for o in ops], coordinates='binary64')
+        res.count(('deep', glue, tuple(X), tuple(T), len(ops)), True)
+        if status == 'err':
+            res.violation('C02:operation-raises:deep', dict(history=hist))
+            continue
+        for b in oracle_mesh(pm.mesh, X, T, glue, check_nbrs=False)[:2]:
+            res.violation('C02:' + b.split(':')[0] + ':deep', dict(clause=b, history=hist))
+    n = (6 if tier == 'quick' else 60) * (4 if boost else 1)
     for h in range(n):
         glue, X, T = INITIAL_GRIDS[rng.randrange(len(INITIAL_GRIDS))]
         pm = PyMesh.create(glue, X, T)
         ops = []
-        for k in range(rng.randint(10, 50)):
-            if len(pm.mesh.leaf_elements) > 200:
+        for k in range(rng.randint(10, 40)):
+            if len(pm.mesh.leaf_elements) > 150:
                 break
-            op = random_op(rng, pm, ['rt', 'rs', 'rb', 'diso', 'daniso', 'grade'], rng.choice([0.2, 0.5, 0.8]))
-            ops.append(op)
-            out = pm.apply(op)
-            from ..meshgen import op_json
+            kind = rng.choice(['rt', 'rs', 'rt', 'rs', 'rb', 'diso', 'daniso', 'grade'])
             hist = dict(glue=glue, X=[str(x) for x in X], T=[str(t) for t in T], ops=[op_json(o) for o in ops])
-            if out.startswith('err'):
-                res.violation('C02:operation-raises:' + op[0], dict(history=hist))
-                break
-            if len(pm.mesh.leaf_elements) > 400:
-                break
+            if kind in ('diso', 'daniso'):
+                eta = random_indicators(rng, len(pm.mesh.leaf_elements), aniso=(kind == 'daniso'))
+                theta = float(rng.choice(THETAS))
+                ops.append((kind, eta, theta))
+                hist['ops'] = [op_json(o) for o in ops]
+                sub = type(res)('C02', res.tier, res.seed)   # collect C06-style findings, re-key them for C02
+                sub.known = []
+                import contextlib, io
+                with contextlib.redirect_stdout(io.StringIO()):
+                    okm = check_marking(sub, pm, kind, eta, theta, glue, X, hist)
+                res.count(('search-mark', h, k), True)
+                if not okm:
+                    res.violation('C02:marking-step-not-least-refinement:' + kind, dict(history=hist, detail=[open(v).read()[:1500] for v in sub.violations[:1]]))
+                    break
+            else:
+                op = random_op(rng, pm, [kind], rng.choice([0.2, 0.5, 0.8]))
+                leaves = list(pm.mesh.leaf_elements)
+                rects = [refmesh.of_elem(e) for e in leaves]
+                ops.append(op)
+                hist['ops'] = [op_json(o) for o in ops]
+                out = pm.apply(op)
+                if out.startswith('err'):
+                    res.violation('C02:operation-raises:' + op[0], dict(history=hist))
+                    break
+                if op[0] in ('rt', 'rs'):
+                    i = [j for j, e in enumerate(leaves) if e.glob_idx == op[1]]
+                    want, _ = refmesh.refine_closure(rects, i, 0 if op[0] == 'rt' else 1, glue, X[0], X[-1])
+                    if {r.key() for r in want} != refmesh.leafset(pm.mesh):
+                        res.violation('C02:bisection-not-least-closure', dict(history=hist))
+                        break
             bad = oracle_mesh(pm.mesh, X, T, glue, check_nbrs=False)
             res.count(('search', h, k), True)
             for b in bad[:2]:
